@@ -172,6 +172,11 @@ func (b *unboundBuilder) Build(t Type, v interface{}) (*Literal, error) {
 		if t != Float64 {
 			return nil, fmt.Errorf("literal.Build: type %v does not match type of value %v", t, v)
 		}
+		if f := v.(float64); f != f {
+			// Every NaN prints as "NaN": keep one representation of it, so that the
+			// printed form parses back to the same literal (and the same UUID).
+			v = math.NaN()
+		}
 	case string:
 		if t != Text {
 			return nil, fmt.Errorf("literal.Build: type %v does not match type of value %v", t, v)
